@@ -11,6 +11,8 @@ import (
 	"log"
 	"math"
 	"strconv"
+	"sync"
+	"sync/atomic"
 
 	"qchen.fun/fatchoy/qnet"
 	. "verifharness/common"
@@ -434,7 +436,62 @@ func deep(seed uint64, total int64) (code int, index int64, checked int64) {
 	return
 }
 
+// ---- separate buffers on separate goroutines ---------------------------------------------------
+// concurrent(seed, g, rounds): g goroutines, each with PRIVATE Buffers and its own value stream,
+// write 64 typed values, check Len(), read them back bit for bit; nothing is shared between
+// them, so on correct code the outcome cannot depend on the schedule.
+// Returns 0 ok | 1 width | 3 read-back | 5 panic.
+func concurrent(seed uint64, g, rounds int) (code int, checked int64) {
+	var wg sync.WaitGroup
+	var bad, n int64
+	for id := 0; id < g; id++ {
+		wg.Add(1)
+		go func(id int) {
+			defer wg.Done()
+			pn, _ := Catch(func() {
+				r := NewRng(seed + uint64(id)*7919)
+				var ks [64]int
+				var us [64]uint64
+				for round := 0; round < rounds && atomic.LoadInt64(&bad) == 0; round++ {
+					var b qnet.Buffer
+					expect := 0
+					for i := range ks {
+						ks[i] = r.Intn(nKinds)
+						us[i] = truncWord(ks[i], rawValue(r, ks[i]))
+						writeRaw(&b, ks[i], us[i])
+						expect += widthOf(ks[i])
+						if b.Len() != expect {
+							atomic.CompareAndSwapInt64(&bad, 0, 1)
+							return
+						}
+					}
+					for i := range ks {
+						if readRaw(&b, ks[i]) != us[i] {
+							atomic.CompareAndSwapInt64(&bad, 0, 3)
+							return
+						}
+					}
+					if b.Len() != 0 {
+						atomic.CompareAndSwapInt64(&bad, 0, 3)
+						return
+					}
+					atomic.AddInt64(&n, 128)
+				}
+			})
+			if pn {
+				atomic.CompareAndSwapInt64(&bad, 0, 5)
+			}
+		}(id)
+	}
+	wg.Wait()
+	return int(atomic.LoadInt64(&bad)), atomic.LoadInt64(&n)
+}
+
 func run(in Sx) Sx {
+	if in.Len() == 1 && in.At(0).At(0).AsInt() == 11 {
+		code, _ := concurrent(in.At(0).At(1).Uint64(), in.At(0).At(2).AsInt(), in.At(0).At(3).AsInt())
+		return List(Int(ws), List(List(Int(11), Int(int64(code)), Int(0))))
+	}
 	if in.Len() == 1 && in.At(0).At(0).AsInt() == 10 {
 		code, at, _ := boundary(uint(in.At(0).At(1).Int64()))
 		return List(Int(ws), List(List(Int(10), Int(int64(code)), Int(at))))
@@ -720,6 +777,26 @@ func gen(a Args, out *Out) {
 		}
 	}
 	out.Note("deep-buffer sweep up to %d bytes in one buffer", deepTotal)
+	// separate Buffers used from separate goroutines at the same time
+	crounds := 3000
+	if a.Thorough() {
+		crounds = 40000
+	}
+	for rep := 0; rep < 3; rep++ {
+		cseed := rng.Next()
+		code, checked := concurrent(cseed, 8, crounds)
+		out.GoChecked += checked
+		out.Count("concurrent runs")
+		in := List(List(Int(11), Uint(cseed), Int(8), Int(int64(crounds))))
+		if code != 0 {
+			what := map[int]string{1: "width", 3: "readback", 5: "panic"}[code]
+			out.Violation("C19/concurrent/"+what, "8 goroutines with private buffers: "+what+" fails", List(in, List()))
+		}
+		if rep == 0 {
+			out.Case("concurrent", true, List(List(Int(11), Uint(cseed), Int(8), Int(200))), run(List(List(Int(11), Uint(cseed), Int(8), Int(200)))))
+		}
+	}
+	out.Note("concurrent stress: 3 x 8 goroutines x %d rounds of 64 typed values on private buffers", crounds)
 	// every kind written / peeked / read at every exact length within 10 bytes of 2^k
 	kmax := uint(24)
 	if a.Thorough() {
